@@ -48,6 +48,11 @@ def gen_case(rng, cid, tier):
         ls = lengths_special(rng)
         if tier != "quick" and rng.random() < 0.1:
             ls = [l * rng.choice([1, 4, 9]) for l in ls]
+        if tier != "quick" and rng.random() < 0.04:
+            # many sequences / long sequences
+            ls = [rng.choice([1, 2, 3, 7, 8, 9, 31, 33]) for _ in range(rng.choice([12, 20, 40]))]
+        elif tier != "quick" and rng.random() < 0.02:
+            ls = [rng.choice([1, 5, 1023, 1024, 1025, 3000]) for _ in range(rng.choice([2, 3, 5]))]
     nv = rng.choice([1, 2, 2, 3, 3, 4, 6, 50])
     vals = list(range(nv)) if cmp != "half" else list(range(2 * nv))
     if rng.random() < 0.15:
